@@ -231,3 +231,1055 @@ Qed.
 
 Lemma vec_set_length v c : length (vec_set v c) = length v.
 Proof. unfold vec_set. destruct (c <? 0); [reflexivity | apply setbit_length]. Qed.
+
+Lemma existsb_ext_in' {X} (f g : X -> bool) l : (forall x, In x l -> f x = g x) -> existsb f l = existsb g l.
+Proof.
+  induction l as [|x l IH]; intros H; cbn [existsb]; [reflexivity|].
+  rewrite (H x (or_introl eq_refl)), IH; [reflexivity|]. intros y Hy. apply H. right. exact Hy.
+Qed.
+
+(* ---------- the ancestor table of C01, row by row ---------- *)
+Section Rows.
+  Variable n : nat.
+  Notation row acc p := (znth (repeat false n) acc p).
+
+  Lemma anc_row_length acc ps : (forall r, In r acc -> length r = n) -> length (anc_row n acc ps) = n.
+  Proof.
+    intros H. unfold anc_row. rewrite setbit_length. apply fold_or_length; [exact H | apply repeat_length].
+  Qed.
+
+  (* the local assertion Hnew of AncFacts.table_step *)
+  Lemma vget_anc_row acc ps a : (forall r, In r acc -> length r = n) -> (length acc < n)%nat ->
+    vget (anc_row n acc ps) a = (a =? Z.of_nat (length acc)) || existsb (fun p => vget (row acc p) a) ps.
+  Proof.
+    intros Hacc Hlt. unfold anc_row. rewrite vget_setbit.
+    rewrite fold_or_length by (try exact Hacc; apply repeat_length).
+    rewrite vget_fold_or by (try exact Hacc; apply repeat_length). rewrite vget_repeat_false. cbn [orb].
+    destruct (Z.ltb_spec (Z.of_nat (length acc)) (Z.of_nat n)); [|lia]. rewrite andb_true_r. reflexivity.
+  Qed.
+
+  (* row c = {c} + the rows of the parents of c, for the rows built so far; P = the parent lists *)
+  Definition rows_char (P : list (list Z)) (acc : list (list bool)) : Prop :=
+    forall c a, (c < length acc)%nat ->
+      vget (row acc (Z.of_nat c)) a = (a =? Z.of_nat c) || existsb (fun p => vget (row acc p) a) (nth c P []).
+
+  Lemma build_anc_rows : forall pss pre acc,
+    length acc = length pre -> (forall r, In r acc -> length r = n) -> (length acc + length pss <= n)%nat ->
+    (forall i ps, nth_error (pre ++ pss) i = Some ps -> forall p, In p ps -> 0 <= p < Z.of_nat i) ->
+    rows_char pre acc -> rows_char (pre ++ pss) (build_anc n pss acc).
+  Proof.
+    induction pss as [|ps pss IH]; intros pre acc HL Hlen Hn Hpar Hch; cbn [build_anc].
+    - rewrite app_nil_r. exact Hch.
+    - cbn [length] in Hn.
+      replace (pre ++ ps :: pss) with ((pre ++ [ps]) ++ pss) by (rewrite <- app_assoc; reflexivity).
+      assert (Hpar' : forall i ps0, nth_error ((pre ++ [ps]) ++ pss) i = Some ps0 ->
+                                    forall p, In p ps0 -> 0 <= p < Z.of_nat i).
+      { intros i ps0 Hi. apply (Hpar i ps0). rewrite <- app_assoc in Hi. exact Hi. }
+      apply IH.
+      + rewrite !app_length. cbn [length]. lia.
+      + intros r Hr. apply in_app_or in Hr. destruct Hr as [Hr|[<-|[]]]; [apply Hlen; exact Hr|].
+        apply anc_row_length. exact Hlen.
+      + rewrite app_length. cbn [length]. lia.
+      + exact Hpar'.
+      + intros c a Hc. rewrite app_length in Hc. cbn [length] in Hc.
+        destruct (Nat.eq_dec c (length acc)) as [->|Hne].
+        * rewrite row_app_new. rewrite HL at 2. rewrite app_nth2 by lia. rewrite Nat.sub_diag. cbn [nth].
+          rewrite vget_anc_row by (try exact Hlen; lia). f_equal.
+          apply existsb_ext_in'. intros p Hp.
+          assert (Hr : 0 <= p < Z.of_nat (length pre)).
+          { apply (Hpar (length pre) ps); [|exact Hp]. rewrite nth_error_app2 by lia. rewrite Nat.sub_diag. reflexivity. }
+          rewrite row_app_old by lia. reflexivity.
+        * assert (Hc' : (c < length acc)%nat) by lia.
+          rewrite row_app_old by lia. rewrite app_nth1 by lia. rewrite (Hch c a Hc'). f_equal.
+          apply existsb_ext_in'. intros p Hp.
+          assert (Hr : 0 <= p < Z.of_nat c).
+          { apply (Hpar c (nth c pre [])); [|exact Hp]. rewrite nth_error_app1 by lia.
+            apply nth_error_nth'. lia. }
+          rewrite row_app_old by lia. reflexivity.
+  Qed.
+End Rows.
+
+(* ---------- ancs h (C01) = Anc (graph_of h) (C02) ---------- *)
+Section Table.
+  Variable h : hist.
+  Hypothesis Hok : commits_okb h = true.
+  Notation A := (ancs h).
+  Notation n := (length (h_parents h)).
+  Notation g := (graph_of h).
+
+  Lemma ancs_rows : rows_char n (h_parents h) A.
+  Proof.
+    unfold ancs. apply (build_anc_rows n (h_parents h) [] []).
+    - reflexivity.
+    - intros r [].
+    - cbn [length]. lia.
+    - intros i ps Hi p Hp. cbn [app] in Hi.
+      assert (Hil : (i < n)%nat) by (apply nth_error_Some; congruence).
+      assert (Hc : 0 <= Z.of_nat i < ncommits h) by (unfold ncommits; lia).
+      assert (Hps : parents_of h (Z.of_nat i) = ps).
+      { unfold parents_of, znth. destruct (Z.ltb_spec (Z.of_nat i) 0); [lia|]. rewrite Nat2Z.id.
+        apply nth_error_nth. exact Hi. }
+      rewrite <- Hps in Hp. pose proof (parents_in_range h Hok _ _ Hc Hp). lia.
+    - intros c a Hc. cbn [length] in Hc. lia.
+  Qed.
+
+  (* row c of the table = {c} + the rows of the parents of c *)
+  Lemma ancb_unfold c a : 0 <= c < ncommits h ->
+    ancb A c a = (a =? c) || existsb (fun p => ancb A p a) (parents_of h c).
+  Proof.
+    intros Hc. destruct (ancs_ok h Hok) as [_ HL].
+    rewrite (ancb_row h Hok c a Hc).
+    pose proof (ancs_rows (Z.to_nat c) a) as R. rewrite Z2Nat.id in R by lia.
+    rewrite R by (rewrite HL; unfold ncommits in Hc; lia).
+    f_equal.
+    assert (E : nth (Z.to_nat c) (h_parents h) [] = parents_of h c).
+    { unfold parents_of, znth. destruct (Z.ltb_spec c 0); [lia | reflexivity]. }
+    rewrite E. apply existsb_ext_in'. intros p Hp.
+    pose proof (parents_in_range h Hok _ _ Hc Hp) as Hr.
+    symmetry. apply (ancb_row h Hok). lia.
+  Qed.
+
+  Lemma graph_length : length g = n.
+  Proof. unfold graph_of. apply map_length. Qed.
+
+  Lemma parents_graph c : PS.parents g c = map Z.to_nat (parents_of h (Z.of_nat c)).
+  Proof.
+    unfold PS.parents, graph_of, parents_of, znth. destruct (Z.ltb_spec (Z.of_nat c) 0); [lia|].
+    rewrite Nat2Z.id. change (@nil nat) with (map Z.to_nat []). apply map_nth.
+  Qed.
+
+  Lemma in_parents_graph c q : (c < n)%nat ->
+    (In q (PS.parents g c) <-> In (Z.of_nat q) (parents_of h (Z.of_nat c))).
+  Proof.
+    intros Hc. rewrite parents_graph, in_map_iff.
+    assert (Hcz : 0 <= Z.of_nat c < ncommits h) by (unfold ncommits; lia).
+    split.
+    - intros [p [E Hp]]. pose proof (parents_in_range h Hok _ _ Hcz Hp) as Hr.
+      replace (Z.of_nat q) with p by lia. exact Hp.
+    - intros Hp. exists (Z.of_nat q). split; [apply Nat2Z.id | exact Hp].
+  Qed.
+
+  Lemma parents_graph_lt c q : In q (PS.parents g c) -> (q < c)%nat.
+  Proof.
+    intros Hq. pose proof (PGP.parents_lt_len _ _ _ Hq) as Hc. rewrite graph_length in Hc.
+    apply (in_parents_graph c q Hc) in Hq.
+    assert (Hcz : 0 <= Z.of_nat c < ncommits h) by (unfold ncommits; lia).
+    pose proof (parents_in_range h Hok _ _ Hcz Hq). lia.
+  Qed.
+
+  Lemma topob_graph : PG.topob g = true.
+  Proof.
+    unfold PG.topob. apply forallb_forall. intros i _. apply forallb_forall. intros q Hq.
+    apply Nat.ltb_lt. apply parents_graph_lt. exact Hq.
+  Qed.
+
+  (* the two ancestor relations agree *)
+  Lemma ancb_Anc : forall c a, (c < n)%nat ->
+    (ancb A (Z.of_nat c) (Z.of_nat a) = true <-> PG.Anc g a c).
+  Proof.
+    induction c as [c IH] using lt_wf_ind. intros a Hc.
+    assert (Hcz : 0 <= Z.of_nat c < ncommits h) by (unfold ncommits; lia).
+    rewrite (ancb_unfold _ _ Hcz), PGP.Anc_inv, orb_true_iff, existsb_exists. split.
+    - intros [E|[p [Hp Ea]]].
+      + left. apply Z.eqb_eq in E. lia.
+      + right. pose proof (parents_in_range h Hok _ _ Hcz Hp) as Hr.
+        exists (Z.to_nat p). split.
+        * apply in_parents_graph; [exact Hc|]. rewrite Z2Nat.id by lia. exact Hp.
+        * apply IH; [lia | lia |]. rewrite Z2Nat.id by lia. exact Ea.
+    - intros [E|[q [Hq Ha]]].
+      + left. apply Z.eqb_eq. lia.
+      + right. pose proof (parents_graph_lt c q Hq) as Hlt.
+        exists (Z.of_nat q). split.
+        * apply in_parents_graph; assumption.
+        * apply IH; [exact Hlt | lia | exact Ha].
+  Qed.
+
+  Lemma row_vget c a : vget (znth [] A c) a = ancb A c a.
+  Proof. reflexivity. Qed.
+End Table.
+
+(* ---------- facts on the commit graph of C02 ---------- *)
+Section GraphFacts.
+  Variable g : list (list nat).
+  Hypothesis T : PG.topob g = true.
+
+  (* every parent is an ancestor-or-self of a non-redundant parent (the one with the largest number among
+     the parents it is an ancestor of) *)
+  Lemma nonred_dominates c : forall k p, (c - p <= k)%nat -> In p (PS.parents g c) ->
+    exists q, PG.nonredundant g c q /\ PG.Anc g p q.
+  Proof.
+    induction k as [|k IH]; intros p Hk Hp; pose proof (PGP.topob_spec g T c p Hp) as Hlt; [lia|].
+    destruct (PG.nonredb g (PG.anc_tab g) c p) eqn:E.
+    - exists p. split; [apply (PGP.nonredb_spec g T); exact E | apply PG.Anc_refl].
+    - unfold PG.nonredb in E. rewrite (proj2 (PGP.memn_In p (PS.parents g c)) Hp) in E. cbn [andb] in E.
+      apply negb_false_iff in E. apply existsb_exists in E. destruct E as [q' [Hq' E]].
+      apply andb_true_iff in E. destruct E as [E1 E2].
+      apply negb_true_iff, Nat.eqb_neq in E1.
+      pose proof (PGP.topob_spec g T c q' Hq') as Hq'lt. pose proof (PGP.parents_lt_len g c q' Hq') as Hclen.
+      apply (PGP.ancb_spec g T) in E2; [|lia].
+      pose proof (PGP.Anc_le g T _ _ E2) as Hle.
+      destruct (IH q') as [q [Hq Ha]]; [lia | exact Hq' |].
+      exists q. split; [exact Hq | eapply PGP.Anc_trans; eassumption].
+  Qed.
+
+  (* with a single non-redundant parent q: anc*(c) = {c} + anc*(q) *)
+  Lemma single_parent_anc c q : In q (PS.parents g c) -> (forall q', PG.nonredundant g c q' -> q' = q) ->
+    forall a, PG.Anc g a c <-> a = c \/ PG.Anc g a q.
+  Proof.
+    intros Hq Honly a. rewrite PGP.Anc_inv. split.
+    - intros [E|[p [Hp Ha]]]; [left; exact E|]. right.
+      destruct (nonred_dominates c (c - p) p (le_n _) Hp) as [q' [Hq' Hpq]].
+      rewrite (Honly q' Hq') in Hpq. eapply PGP.Anc_trans; eassumption.
+    - intros [E|Ha]; [left; exact E|]. right. exists q. split; assumption.
+  Qed.
+
+  Lemma replay_ok_inv s c b x : PP.replay_ok g s c b -> PE.get s b = PE.Live x ->
+    (c < length g)%nat /\
+    match PE.last x with
+    | None => PE.inc x = [] /\ PS.parents g c = []
+    | Some q => In q (PS.parents g c) /\ forall a, In a (PE.inc x) <-> PG.Anc g a q
+    end.
+  Proof.
+    intros [Hc [x0 [Hx0 Hm]]] Hx. rewrite Hx in Hx0. injection Hx0 as <-. split; assumption.
+  Qed.
+
+  (* one replay: afterwards the branch holds exactly the ancestry of c *)
+  Lemma replay_single_anc s c b x :
+    PP.replay_ok g s c b -> PP.lasts_ok g c [PE.last_on s b] -> PE.get s b = PE.Live x ->
+    forall a, PG.Anc g a c <-> a = c \/ In a (PE.inc x).
+  Proof.
+    intros Hr Hl Hx a. destruct (replay_ok_inv s c b x Hr Hx) as [Hc Hm].
+    unfold PE.last_on in Hl. rewrite Hx in Hl. cbn [PE.last_of PE.data] in Hl.
+    destruct (PE.last x) as [q|].
+    - destruct Hm as [Hq Hinc]. destruct Hl as [[Hnil _]|[_ [qs [Eqs [_ Hqs]]]]].
+      + rewrite Hnil in Hq. destruct Hq.
+      + assert (qs = [q]) as ->.
+        { destruct qs as [|q0 [|q1 qs]]; cbn in Eqs; try discriminate. injection Eqs as <-. reflexivity. }
+        rewrite (single_parent_anc c q Hq).
+        * rewrite Hinc. tauto.
+        * intros q' Hq'. apply Hqs in Hq'. destruct Hq' as [E|[]]. symmetry. exact E.
+    - destruct Hm as [Hinc Hpar]. rewrite PGP.Anc_inv, Hpar, Hinc. cbn [In]. split.
+      + intros [E|[q [[] _]]]. left. exact E.
+      + intros [E|[]]. left. exact E.
+  Qed.
+
+  (* several replays: the commit has several parents *)
+  Lemma lasts_multi c ls : PP.lasts_ok g c ls -> (2 <= length ls)%nat ->
+    PS.parents g c <> [] /\ (2 <= length (PS.parents g c))%nat.
+  Proof.
+    intros [[_ ->]|[Hne [qs [-> [Hnd Hqs]]]]] HL; [cbn in HL; lia|].
+    split; [exact Hne|]. rewrite map_length in HL.
+    etransitivity; [exact HL|]. apply NoDup_incl_length; [exact Hnd|].
+    intros q Hq. apply Hqs in Hq. destruct Hq as [Hq _]. exact Hq.
+  Qed.
+End GraphFacts.
+
+(* ---------- isMerge of C01 ---------- *)
+Definition commit_ids (l : list action) : list Z :=
+  flat_map (fun a => match a with ACommit c _ => [c] | _ => [] end) l.
+
+Lemma nearest_commit_in l c : nearest_commit l = Some c -> In c (commit_ids l).
+Proof.
+  induction l as [|a l IH]; cbn [nearest_commit]; [discriminate|].
+  intros E. unfold commit_ids. cbn [flat_map]. apply in_or_app.
+  destruct a; cbn [is_hib] in E; try discriminate; try (right; apply IH; exact E).
+  injection E as <-. left. left. reflexivity.
+Qed.
+
+Lemma removelast_in' {X} (l : list X) x : In x (removelast l) -> In x l.
+Proof.
+  induction l as [|y l IH]; [intros []|]. destruct l as [|z l]; [intros []|].
+  change (removelast (y :: z :: l)) with (y :: removelast (z :: l)).
+  intros [E|H]; [left; exact E | right; apply IH; exact H].
+Qed.
+
+Lemma commit_ids_removelast l z : In z (commit_ids (removelast l)) -> In z (commit_ids l).
+Proof.
+  unfold commit_ids. rewrite !in_flat_map. intros [a [Ha Hz]]. exists a. split; [|exact Hz].
+  apply removelast_in'. exact Ha.
+Qed.
+
+Lemma is_merge_at_false before after c :
+  (forall z, In z (commit_ids before) -> z <> c) ->
+  (forall z, nearest_commit after = Some z -> z <> c) ->
+  is_merge_at before after c = false.
+Proof.
+  intros Hb Ha. unfold is_merge_at.
+  assert (E : match nearest_commit after with Some c2 => c2 =? c | None => false end = false).
+  { destruct (nearest_commit after) as [c2|]; [|reflexivity]. apply Z.eqb_neq. apply Ha. reflexivity. }
+  destruct (nearest_commit (removelast before)) as [c'|] eqn:Eb; [|exact E].
+  apply nearest_commit_in, commit_ids_removelast in Eb. apply Hb, Z.eqb_neq in Eb. rewrite Eb. exact E.
+Qed.
+
+Lemma is_merge_at_after before after c b : is_merge_at before (ACommit c b :: after) c = true.
+Proof.
+  unfold is_merge_at. cbn [nearest_commit is_hib]. rewrite Z.eqb_refl.
+  destruct (nearest_commit (removelast before)) as [c'|]; [|reflexivity]. destruct (c' =? c); reflexivity.
+Qed.
+
+Lemma is_merge_at_before x before after c b : is_merge_at (ACommit c b :: x :: before) after c = true.
+Proof.
+  unfold is_merge_at. change (removelast (ACommit c b :: x :: before)) with (ACommit c b :: removelast (x :: before)).
+  cbn [nearest_commit is_hib]. rewrite Z.eqb_refl. reflexivity.
+Qed.
+
+(* ---------- the validator steps of C01, one equation per accepted case ---------- *)
+Section Steps.
+  Variable h : hist.
+  Variable A : list (list bool).
+  Variable n : nat.
+
+  Lemma pstep_emerge before after b ps :
+    ps_pend ps = None -> memz b (ps_seen ps) = false ->
+    pstep h A n before after (AEmerge b) ps =
+    Some (mkPS (aset (ps_live ps) b (mkPB (repeat false n) None)) (b :: ps_seen ps) (ps_done ps) None).
+  Proof. intros H1 H2. unfold pstep. rewrite H1, H2. reflexivity. Qed.
+
+  Lemma pstep_fork before after b bs ps pb :
+    ps_pend ps = None -> aget (ps_live ps) b = Some pb ->
+    forallb (fun b' => negb (memz b' (ps_seen ps))) bs = true -> nodup_zb bs = true ->
+    pstep h A n before after (AFork b bs) ps =
+    Some (mkPS (fold_left (fun m b' => aset m b' pb) bs (ps_live ps)) (bs ++ ps_seen ps) (ps_done ps) None).
+  Proof. intros H1 H2 H3 H4. unfold pstep. rewrite H1, H2, H3, H4. reflexivity. Qed.
+
+  Lemma pstep_delete before after b ps pb :
+    ps_pend ps = None -> aget (ps_live ps) b = Some pb ->
+    pstep h A n before after (ADelete b) ps =
+    Some (mkPS (adel (ps_live ps) b) (ps_seen ps) (ps_done ps) None).
+  Proof. intros H1 H2. unfold pstep. rewrite H1, H2. reflexivity. Qed.
+
+  Lemma pstep_commit_normal before after c b ps pb :
+    aget (ps_live ps) b = Some pb -> in_range (Z.of_nat n) c = true ->
+    vec_get (pb_set pb) c = false -> memz c (ps_done ps) = false ->
+    is_merge_at before after c = false -> ps_pend ps = None ->
+    vec_eqb (vec_set (pb_set pb) c) (znth [] A c) = true ->
+    pstep h A n before after (ACommit c b) ps =
+    Some (mkPS (aset (ps_live ps) b (mkPB (vec_set (pb_set pb) c) (Some c))) (ps_seen ps) (c :: ps_done ps) None).
+  Proof.
+    intros H1 H2 H3 H4 H5 H6 H7. unfold pstep. rewrite H1, H2, H3, H4, H5, H6, H7. reflexivity.
+  Qed.
+
+  Lemma pstep_commit_merge before after c b ps pb l :
+    aget (ps_live ps) b = Some pb -> in_range (Z.of_nat n) c = true ->
+    vec_get (pb_set pb) c = false -> memz c (ps_done ps) = false ->
+    is_merge_at before after c = true ->
+    pb_last pb = Some l -> memz l (parents_of h c) = true ->
+    vec_leb (pb_set pb) (znth [] A c) = true -> (2 <=? Z.of_nat (length (parents_of h c))) = true ->
+    pstep h A n before after (ACommit c b) ps =
+    let live' := aset (ps_live ps) b (mkPB (vec_set (pb_set pb) c) (Some c)) in
+    match ps_pend ps with
+    | None => Some (mkPS live' (ps_seen ps) (ps_done ps) (Some (c, [b])))
+    | Some (m, bs) => if (m =? c) && negb (memz b bs)
+                      then Some (mkPS live' (ps_seen ps) (ps_done ps) (Some (c, bs ++ [b])))
+                      else None
+    end.
+  Proof.
+    intros H1 H2 H3 H4 H5 H6 H7 H8 H9. unfold pstep. rewrite H1, H2, H3, H4, H5, H6, H7, H8, H9. reflexivity.
+  Qed.
+
+  Lemma pstep_merge before after bs ps m rs :
+    ps_pend ps = Some (m, rs) ->
+    nodup_zb bs = true -> subset_z bs rs = true -> subset_z rs bs = true ->
+    (2 <=? Z.of_nat (length bs)) = true ->
+    vec_eqb (fold_left orvec (map (fun b => match aget (ps_live ps) b with Some pb => pb_set pb | None => [] end) bs)
+                       (repeat false n)) (znth [] A m) = true ->
+    pstep h A n before after (AMerge bs) ps =
+    Some (mkPS (fold_left (fun l b => aset l b
+                  (mkPB (fold_left orvec (map (fun b => match aget (ps_live ps) b with Some pb => pb_set pb | None => [] end) bs)
+                                   (repeat false n)) (Some m))) bs (ps_live ps))
+               (ps_seen ps) (m :: ps_done ps) None).
+  Proof.
+    intros H1 H2 H3 H4 H5 H6. unfold pstep. rewrite H1, H2, H3, H4, H5. cbn [andb negb]. rewrite H6. reflexivity.
+  Qed.
+End Steps.
+
+(* ---------- the simulation relation between the two validators' states ---------- *)
+Section Sim.
+  Variable n : nat.
+
+  (* C02 branch (list of commits, last) vs C01 branch (bit vector, last) *)
+  Definition pb_ok (x : PE.branch) (pb : pbranch) : Prop :=
+    length (pb_set pb) = n /\ pb_last pb = option_map Z.of_nat (PE.last x) /\
+    forall a, (a < n)%nat -> (vget (pb_set pb) (Z.of_nat a) = true <-> In a (PE.inc x)).
+
+  Definition brel (l : PE.life) (o : option pbranch) : Prop :=
+    match PE.data l, o with
+    | Some x, Some pb => pb_ok x pb
+    | None, None => True
+    | _, _ => False
+    end.
+
+  (* live or hibernated in C02 <-> in ps_live; every branch index C01 has seen is not Absent in C02 *)
+  Definition lsim (s : list (Z * PE.life)) (live : list (Z * pbranch)) (seen : list Z) : Prop :=
+    (forall b, brel (PE.get s b) (aget live b)) /\ NoDup (map fst live) /\
+    (forall b, In b seen -> PE.get s b <> PE.Absent).
+
+  Lemma lsim_live s live seen b x : lsim s live seen -> PE.get s b = PE.Live x ->
+    exists pb, aget live b = Some pb /\ pb_ok x pb.
+  Proof.
+    intros [H1 _] Hx. specialize (H1 b). unfold brel in H1. rewrite Hx in H1. cbn [PE.data] in H1.
+    destruct (aget live b) as [pb|]; [|destruct H1]. exists pb. split; [reflexivity | exact H1].
+  Qed.
+
+  Lemma lsim_absent s live seen b : lsim s live seen -> PE.get s b = PE.Absent -> memz b seen = false.
+  Proof.
+    intros [_ [_ H3]] Hx. apply memz_notin. intros Hin. apply (H3 b Hin). exact Hx.
+  Qed.
+
+  Lemma pb_ok_commit x pb c : pb_ok x pb -> (c < n)%nat ->
+    pb_ok (PE.mkB (c :: PE.inc x) (Some c)) (mkPB (vec_set (pb_set pb) (Z.of_nat c)) (Some (Z.of_nat c))).
+  Proof.
+    intros [HL [_ Hb]] Hc. split; [|split]; cbn [pb_set pb_last PE.inc PE.last option_map].
+    - rewrite vec_set_length. exact HL.
+    - reflexivity.
+    - intros a Ha. rewrite vget_vec_set by lia. rewrite orb_true_iff, Nat.eqb_eq, (Hb a Ha). cbn [In].
+      split; intros [E|H]; auto.
+  Qed.
+
+  Lemma lsim_commit s live seen b x pb c :
+    lsim s live seen -> PE.get s b = PE.Live x -> aget live b = Some pb -> (c < n)%nat ->
+    lsim (PE.step s (PS.commit_on c b))
+         (aset live b (mkPB (vec_set (pb_set pb) (Z.of_nat c)) (Some (Z.of_nat c)))) seen.
+  Proof.
+    intros Hs Hx Hpb Hc. destruct (lsim_live _ _ _ _ _ Hs Hx) as [pb' [E Hok]].
+    rewrite Hpb in E. injection E as <-. destruct Hs as [H1 [H2 H3]]. split; [|split].
+    - intros b'. rewrite PEP.get_step_commit, aget_aset'. destruct (Z.eqb_spec b b') as [<-|Hne].
+      + rewrite Hx. cbn [PE.upd]. unfold brel. cbn [PE.data]. apply pb_ok_commit; assumption.
+      + apply H1.
+    - apply nodup_aset'. exact H2.
+    - intros b' Hb'. rewrite PEP.get_step_commit. destruct (Z.eqb_spec b b') as [<-|Hne].
+      + rewrite Hx. cbn [PE.upd]. discriminate.
+      + apply H3. exact Hb'.
+  Qed.
+
+  Lemma lsim_emerge s live seen b : lsim s live seen ->
+    lsim (PE.set s b (PE.Live (PE.mkB [] None))) (aset live b (mkPB (repeat false n) None)) (b :: seen).
+  Proof.
+    intros [H1 [H2 H3]]. split; [|split].
+    - intros b'. rewrite PEP.get_set, aget_aset'. destruct (Z.eqb_spec b b') as [<-|Hne]; [|apply H1].
+      unfold brel. cbn [PE.data]. split; [|split]; cbn [pb_set pb_last PE.inc PE.last option_map].
+      + apply repeat_length.
+      + reflexivity.
+      + intros a _. rewrite vget_repeat_false. cbn [In]. split; [discriminate | tauto].
+    - apply nodup_aset'. exact H2.
+    - intros b' Hb'. rewrite PEP.get_set. destruct (Z.eqb_spec b b') as [<-|Hne]; [discriminate|].
+      apply H3. destruct Hb' as [E|Hb']; [congruence | exact Hb'].
+  Qed.
+
+  Lemma lsim_fork s live seen b x pb ts :
+    lsim s live seen -> PE.get s b = PE.Live x -> aget live b = Some pb ->
+    lsim (fold_left (fun s' t => PE.set s' t (PE.get s b)) ts s)
+         (fold_left (fun m t => aset m t pb) ts live) (ts ++ seen).
+  Proof.
+    intros Hs Hx Hpb. destruct (lsim_live _ _ _ _ _ Hs Hx) as [pb' [E Hok]].
+    rewrite Hpb in E. injection E as <-. destruct Hs as [H1 [H2 H3]]. split; [|split].
+    - intros b'. rewrite (PEP.get_fold_set (fun _ => PE.get s b)), (aget_fold_aset' (fun _ => pb)).
+      change (PEP.memzb b' ts) with (memz b' ts). destruct (memz b' ts); [|apply H1].
+      rewrite Hx. unfold brel. cbn [PE.data]. exact Hok.
+    - apply (nodup_fold_aset' (fun _ => pb)). exact H2.
+    - intros b' Hb'. rewrite (PEP.get_fold_set (fun _ => PE.get s b)).
+      change (PEP.memzb b' ts) with (memz b' ts). destruct (memz b' ts) eqn:E.
+      + rewrite Hx. discriminate.
+      + apply H3. apply in_app_or in Hb'. destruct Hb' as [Hb'|Hb']; [|exact Hb'].
+        apply memz_In in Hb'. congruence.
+  Qed.
+
+  Lemma lsim_delete s live seen b : lsim s live seen -> lsim (PE.set s b PE.Disposed) (adel live b) seen.
+  Proof.
+    intros [H1 [H2 H3]]. split; [|split].
+    - intros b'. rewrite PEP.get_set, (aget_adel' _ _ _ H2). destruct (Z.eqb_spec b b') as [<-|Hne]; [|apply H1].
+      exact I.
+    - apply nodup_adel'. exact H2.
+    - intros b' Hb'. rewrite PEP.get_set. destruct (Z.eqb_spec b b') as [<-|Hne]; [discriminate|].
+      apply H3. exact Hb'.
+  Qed.
+
+  Lemma lsim_data s s' live seen :
+    (forall b, PE.data (PE.get s' b) = PE.data (PE.get s b)) ->
+    (forall b, PE.get s b <> PE.Absent -> PE.get s' b <> PE.Absent) ->
+    lsim s live seen -> lsim s' live seen.
+  Proof.
+    intros Hd Ha [H1 [H2 H3]]. split; [|split].
+    - intros b. unfold brel. rewrite Hd. apply H1.
+    - exact H2.
+    - intros b Hb. apply Ha, H3. exact Hb.
+  Qed.
+
+  Lemma lsim_hibernate s live seen bs : lsim s live seen -> lsim (fold_left PE.hibernate1 bs s) live seen.
+  Proof.
+    apply lsim_data; intros b; rewrite PEP.get_fold_hibernate; destruct (PEP.memzb b bs); try reflexivity; try tauto;
+      destruct (PE.get s b); cbn; try reflexivity; try tauto; discriminate.
+  Qed.
+
+  Lemma lsim_boot s live seen bs : lsim s live seen -> lsim (fold_left PE.boot1 bs s) live seen.
+  Proof.
+    apply lsim_data; intros b; rewrite PEP.get_fold_boot; destruct (PEP.memzb b bs); try reflexivity; try tauto;
+      destruct (PE.get s b); cbn; try reflexivity; try tauto; discriminate.
+  Qed.
+
+  (* the union computed by the merge of C01 = the concatenation computed by the merge of C02 *)
+  Definition sets_of (live : list (Z * pbranch)) (bs : list Z) : list (list bool) :=
+    map (fun b => match aget live b with Some pb => pb_set pb | None => [] end) bs.
+  Definition union_of (live : list (Z * pbranch)) (bs : list Z) : list bool :=
+    fold_left orvec (sets_of live bs) (repeat false n).
+
+  Lemma union_of_spec s live seen bs :
+    lsim s live seen -> (forall b, In b bs -> exists x, PE.get s b = PE.Live x) ->
+    length (union_of live bs) = n /\
+    forall a, (a < n)%nat ->
+      (vget (union_of live bs) (Z.of_nat a) = true <-> In a (flat_map (fun k => PE.inc_of (PE.get s k)) bs)).
+  Proof.
+    intros Hs Hlive. unfold union_of. split; [rewrite fold_orvec_length; apply repeat_length|].
+    intros a Ha.
+    assert (Hlen : forall v, In v (sets_of live bs) -> length v = n).
+    { intros v Hv. unfold sets_of in Hv. apply in_map_iff in Hv. destruct Hv as [b [<- Hb]].
+      destruct (Hlive b Hb) as [x Hx]. destruct (lsim_live _ _ _ _ _ Hs Hx) as [pb [-> [HL _]]]. exact HL. }
+    rewrite (vget_fold_orvec' n) by (try exact Hlen; apply repeat_length).
+    rewrite vget_repeat_false. cbn [orb]. rewrite existsb_exists, in_flat_map. unfold sets_of. split.
+    - intros [v [Hv Hg]]. apply in_map_iff in Hv. destruct Hv as [b [<- Hb]]. exists b. split; [exact Hb|].
+      destruct (Hlive b Hb) as [x Hx]. destruct (lsim_live _ _ _ _ _ Hs Hx) as [pb [E [_ [_ Hbits]]]].
+      rewrite E in Hg. rewrite Hx. cbn [PE.inc_of PE.data]. apply (Hbits a Ha). exact Hg.
+    - intros [b [Hb Hin]]. destruct (Hlive b Hb) as [x Hx].
+      destruct (lsim_live _ _ _ _ _ Hs Hx) as [pb [E [_ [_ Hbits]]]].
+      exists (pb_set pb). split.
+      + apply in_map_iff. exists b. split; [rewrite E; reflexivity | exact Hb].
+      + rewrite Hx in Hin. cbn [PE.inc_of PE.data] in Hin. apply (Hbits a Ha). exact Hin.
+  Qed.
+
+  Lemma lsim_merge s live seen m c :
+    lsim s live seen -> PS.kind m = PS.KMerge ->
+    (forall b, In b (PS.items m) -> exists x, PE.get s b = PE.Live x /\ PE.last x = Some c) ->
+    lsim (PE.step s m)
+         (fold_left (fun l b => aset l b (mkPB (union_of live (PS.items m)) (Some (Z.of_nat c)))) (PS.items m) live)
+         seen.
+  Proof.
+    intros Hs K Hl.
+    assert (Hlive : forall b, In b (PS.items m) -> exists x, PE.get s b = PE.Live x).
+    { intros b Hb. destruct (Hl b Hb) as [x [Hx _]]. exists x. exact Hx. }
+    destruct (union_of_spec s live seen (PS.items m) Hs Hlive) as [HL Hbits].
+    destruct Hs as [H1 [H2 H3]]. split; [|split].
+    - intros b. rewrite (PEP.get_step_merge s m b K).
+      rewrite (aget_fold_aset' (fun _ => mkPB (union_of live (PS.items m)) (Some (Z.of_nat c)))).
+      change (PEP.memzb b (PS.items m)) with (memz b (PS.items m)).
+      destruct (memz b (PS.items m)) eqn:E; [|apply H1].
+      apply memz_In in E. destruct (Hl b E) as [x [Hx Hlast]]. rewrite Hx. cbn [PE.upd].
+      unfold brel. cbn [PE.data]. split; [|split]; cbn [pb_set pb_last PE.inc PE.last].
+      + exact HL.
+      + rewrite Hlast. reflexivity.
+      + exact Hbits.
+    - apply (nodup_fold_aset' (fun _ => mkPB (union_of live (PS.items m)) (Some (Z.of_nat c)))). exact H2.
+    - intros b Hb. rewrite (PEP.get_step_merge s m b K). destruct (PEP.memzb b (PS.items m)) eqn:E; [|apply H3; exact Hb].
+      apply PEP.memzb_In in E. destruct (Hl b E) as [x [Hx _]]. rewrite Hx. cbn [PE.upd]. discriminate.
+  Qed.
+End Sim.
+
+Lemma in_map_of_nat c l : In (Z.of_nat c) (map Z.of_nat l) <-> In c l.
+Proof.
+  rewrite in_map_iff. split.
+  - intros [x [E Hx]]. apply Nat2Z.inj in E. subst. exact Hx.
+  - intros H. exists c. split; [reflexivity | exact H].
+Qed.
+
+Lemma nodup_map_of_nat l : NoDup l -> NoDup (map Z.of_nat l).
+Proof.
+  induction 1 as [|x l Hn Hnd IH]; cbn [map]; constructor; [|exact IH].
+  rewrite in_map_of_nat. exact Hn.
+Qed.
+
+Lemma memz_done c done : ~ In c done -> memz (Z.of_nat c) (map Z.of_nat done) = false.
+Proof. intros H. apply memz_notin. rewrite in_map_of_nat. exact H. Qed.
+
+Lemma vget_out v i : ~ (0 <= i < Z.of_nat (length v)) -> vget v i = false.
+Proof.
+  intros H. destruct (vget v i) eqn:E; [|reflexivity]. exfalso. apply H. apply vget_range. exact E.
+Qed.
+
+(* the nearest commit action of an accepted remainder is not an already completed commit *)
+Lemma Acc_nearest g0 s done p : PCS.Acc g0 s done p ->
+  forall z, nearest_commit (tr_plan p) = Some z -> exists c, z = Z.of_nat c /\ ~ In c done.
+Proof.
+  induction 1 as [s done Hf | s done c b rest Hd Hr Hl _ IH
+                 | s done c bs m rest L Hd Hnd Hr Hl K Hp Hlive Hcov _ IH
+                 | s done a rest K1 K2 Hs _ IH]; intros z Hz.
+  - discriminate Hz.
+  - change (tr_plan (PS.commit_on c b :: rest)) with (ACommit (Z.of_nat c) b :: tr_plan rest) in Hz.
+    cbn [nearest_commit is_hib] in Hz. injection Hz as <-. exists c. split; [reflexivity | exact Hd].
+  - destruct bs as [|b0 bs0]; [cbn in L; lia|].
+    change (tr_plan (PP.block c (b0 :: bs0) ++ m :: rest))
+      with (ACommit (Z.of_nat c) b0 :: tr_plan (PP.block c bs0 ++ m :: rest)) in Hz.
+    cbn [nearest_commit is_hib] in Hz. injection Hz as <-. exists c. split; [reflexivity | exact Hd].
+  - change (tr_plan (a :: rest)) with (tr_action a :: tr_plan rest) in Hz.
+    destruct a as [k co its]. cbn [PS.kind] in K1, K2.
+    destruct k; try (exfalso; apply K1; reflexivity); try (exfalso; apply K2; reflexivity);
+      destruct its as [|b its']; cbn [tr_action PS.kind PS.commit PS.items nearest_commit is_hib] in Hz;
+      try discriminate Hz; apply IH; exact Hz.
+Qed.
+
+(* ---------- the simulation ---------- *)
+Section Main.
+  Variable h : hist.
+  Hypothesis Hok : commits_okb h = true.
+  Notation A := (ancs h).
+  Notation n := (length (h_parents h)).
+  Notation g := (graph_of h).
+  Notation T := (topob_graph h Hok).
+
+  Lemma in_range_of_nat c : (c < n)%nat -> in_range (Z.of_nat n) (Z.of_nat c) = true.
+  Proof. intros H. unfold in_range. apply andb_true_iff. split; [apply Z.leb_le | apply Z.ltb_lt]; lia. Qed.
+
+  Lemma row_length_of_nat c : (c < n)%nat -> length (znth [] A (Z.of_nat c)) = n.
+  Proof. intros H. apply (row_len h Hok). unfold ncommits. lia. Qed.
+
+  Lemma not_in_set s c b x pb : (c < n)%nat ->
+    PP.replay_ok g s c b -> PE.get s b = PE.Live x -> pb_ok n x pb ->
+    vec_get (pb_set pb) (Z.of_nat c) = false.
+  Proof.
+    intros Hc Hr Hx [_ [_ Hbits]]. change (vget (pb_set pb) (Z.of_nat c) = false).
+    destruct (vget (pb_set pb) (Z.of_nat c)) eqn:E; [|reflexivity]. exfalso.
+    apply (Hbits c Hc) in E. destruct (replay_ok_inv g s c b x Hr Hx) as [_ Hm].
+    destruct (PE.last x) as [q|].
+    - destruct Hm as [Hq Hinc]. apply Hinc in E. pose proof (PGP.Anc_le g T _ _ E).
+      pose proof (PGP.topob_spec g T c q Hq). lia.
+    - destruct Hm as [Hinc _]. rewrite Hinc in E. destruct E.
+  Qed.
+
+  (* one replay (normal mode of C01): set + {c} = row c of the table *)
+  Lemma single_vec_eqb s c b x pb : (c < n)%nat ->
+    PP.replay_ok g s c b -> PP.lasts_ok g c [PE.last_on s b] -> PE.get s b = PE.Live x -> pb_ok n x pb ->
+    vec_eqb (vec_set (pb_set pb) (Z.of_nat c)) (znth [] A (Z.of_nat c)) = true.
+  Proof.
+    intros Hc Hr Hl Hx [HL [_ Hbits]]. apply vec_eqb_true.
+    - rewrite vec_set_length, HL, row_length_of_nat by exact Hc. reflexivity.
+    - intros i. destruct (Z_lt_dec i 0) as [Hneg|Hpos]; [rewrite !vget_neg by exact Hneg; reflexivity|].
+      destruct (Z_lt_dec i (Z.of_nat n)) as [Hin|Hout].
+      + replace i with (Z.of_nat (Z.to_nat i)) by lia.
+        assert (Ha : (Z.to_nat i < n)%nat) by lia. set (a := Z.to_nat i) in *.
+        rewrite vget_vec_set by lia. rewrite row_vget. apply eq_true_iff_eq.
+        rewrite orb_true_iff, Nat.eqb_eq, (Hbits a Ha), (ancb_Anc h Hok c a Hc).
+        rewrite (replay_single_anc g T s c b x Hr Hl Hx a). reflexivity.
+      + rewrite !vget_out; [reflexivity | |].
+        * rewrite row_length_of_nat by exact Hc. lia.
+        * rewrite vec_set_length, HL. lia.
+  Qed.
+
+  (* one of several replays (merge mode of C01) *)
+  Lemma multi_commit_facts s c b x pb : (c < n)%nat -> PS.parents g c <> [] ->
+    PP.replay_ok g s c b -> PE.get s b = PE.Live x -> pb_ok n x pb ->
+    exists q, pb_last pb = Some (Z.of_nat q) /\ memz (Z.of_nat q) (parents_of h (Z.of_nat c)) = true /\
+              vec_leb (pb_set pb) (znth [] A (Z.of_nat c)) = true.
+  Proof.
+    intros Hc Hne Hr Hx [HL [Hlast Hbits]]. destruct (replay_ok_inv g s c b x Hr Hx) as [_ Hm].
+    destruct (PE.last x) as [q|]; [|destruct Hm as [_ Hm]; contradiction].
+    destruct Hm as [Hq Hinc]. exists q. split; [exact Hlast|]. split.
+    - apply memz_In. apply (in_parents_graph h Hok c q Hc). exact Hq.
+    - apply vec_leb_true.
+      + rewrite HL, row_length_of_nat by exact Hc. reflexivity.
+      + intros i Hi. pose proof (vget_range _ _ Hi) as Hr'. rewrite HL in Hr'.
+        replace i with (Z.of_nat (Z.to_nat i)) in * by lia.
+        assert (Ha : (Z.to_nat i < n)%nat) by lia. set (a := Z.to_nat i) in *.
+        rewrite row_vget. apply (ancb_Anc h Hok c a Hc).
+        apply (Hbits a Ha), Hinc in Hi. eapply PG.Anc_step; eassumption.
+  Qed.
+
+  Definition before_ok (before : list action) (done : list nat) : Prop :=
+    forall z, In z (commit_ids before) -> exists c, z = Z.of_nat c /\ In c done.
+
+  (* the replays of a merge commit: C01 collects them in ps_pend *)
+  Lemma block_sim c total tail s0 done :
+    (c < n)%nat -> NoDup total -> (2 <= length total)%nat ->
+    PS.parents g c <> [] -> (2 <= length (PS.parents g c))%nat -> ~ In c done ->
+    (forall bs1 b bs2, total = bs1 ++ b :: bs2 -> PP.replay_ok g (PE.run s0 (PP.block c bs1)) c b) ->
+    forall bs2 bs1 before ps,
+      total = bs1 ++ bs2 ->
+      lsim n (PE.run s0 (PP.block c bs1)) (ps_live ps) (ps_seen ps) ->
+      ps_done ps = map Z.of_nat done ->
+      ps_pend ps = match bs1 with [] => None | _ :: _ => Some (Z.of_nat c, bs1) end ->
+      before <> [] ->
+      (bs1 <> [] -> exists bl x r, before = ACommit (Z.of_nat c) bl :: x :: r) ->
+      exists before2 ps2,
+        prun h A n before (tr_plan (PP.block c bs2) ++ tail) ps = prun h A n before2 tail ps2 /\
+        lsim n (PE.run s0 (PP.block c total)) (ps_live ps2) (ps_seen ps2) /\
+        ps_done ps2 = map Z.of_nat done /\
+        ps_pend ps2 = match total with [] => None | _ :: _ => Some (Z.of_nat c, total) end /\
+        before2 <> [] /\
+        (forall z, In z (commit_ids before2) -> z = Z.of_nat c \/ In z (commit_ids before)).
+  Proof.
+    intros Hc Hnd HL Hpne Hp2 Hd Hrep.
+    induction bs2 as [|b bs2 IH]; intros bs1 before ps Etot Hs Hdone Hpend Hbne Hbform.
+    - rewrite app_nil_r in Etot. subst bs1. exists before, ps.
+      split; [reflexivity|]. split; [exact Hs|]. split; [exact Hdone|]. split; [exact Hpend|].
+      split; [exact Hbne|]. intros z Hz. right. exact Hz.
+    - pose proof (Hrep bs1 b bs2 Etot) as Hr. pose proof Hr as [_ [x [Hx _]]].
+      destruct (lsim_live n _ _ _ _ _ Hs Hx) as [pb [Hpb Hpbok]].
+      destruct (multi_commit_facts _ c b x pb Hc Hpne Hr Hx Hpbok) as [q [Hlast [Hmem Hleb]]].
+      pose proof (not_in_set _ c b x pb Hc Hr Hx Hpbok) as Hnot.
+      assert (Hmd : memz (Z.of_nat c) (ps_done ps) = false) by (rewrite Hdone; apply memz_done; exact Hd).
+      assert (Hm : is_merge_at before (tr_plan (PP.block c bs2) ++ tail) (Z.of_nat c) = true).
+      { destruct bs1 as [|b1 bs1'].
+        - destruct bs2 as [|b2 bs2']; [subst total; cbn in HL; lia|].
+          change (tr_plan (PP.block c (b2 :: bs2')) ++ tail)
+            with (ACommit (Z.of_nat c) b2 :: (tr_plan (PP.block c bs2') ++ tail)).
+          apply is_merge_at_after.
+        - destruct Hbform as [bl [x0 [r ->]]]; [discriminate|]. apply is_merge_at_before. }
+      assert (Hlen2 : (2 <=? Z.of_nat (length (parents_of h (Z.of_nat c)))) = true).
+      { apply Z.leb_le. rewrite (parents_graph h c), map_length in Hp2. lia. }
+      assert (Hbnot : ~ In b bs1).
+      { rewrite Etot in Hnd. apply NoDup_remove_2 in Hnd. intros Hin. apply Hnd. apply in_or_app. left. exact Hin. }
+      set (ps1 := mkPS (aset (ps_live ps) b (mkPB (vec_set (pb_set pb) (Z.of_nat c)) (Some (Z.of_nat c))))
+                       (ps_seen ps) (ps_done ps) (Some (Z.of_nat c, bs1 ++ [b]))).
+      assert (Hstep : pstep h A n before (tr_plan (PP.block c bs2) ++ tail) (ACommit (Z.of_nat c) b) ps = Some ps1).
+      { rewrite (pstep_commit_merge h A n before _ (Z.of_nat c) b ps pb (Z.of_nat q) Hpb (in_range_of_nat c Hc)
+                   Hnot Hmd Hm Hlast Hmem Hleb Hlen2).
+        cbv zeta. rewrite Hpend. destruct bs1 as [|b1 bs1']; [reflexivity|].
+        rewrite Z.eqb_refl. rewrite (proj2 (memz_notin b (b1 :: bs1')) Hbnot). reflexivity. }
+      change (tr_plan (PP.block c (b :: bs2)) ++ tail)
+        with (ACommit (Z.of_nat c) b :: (tr_plan (PP.block c bs2) ++ tail)).
+      cbn [prun]. rewrite Hstep.
+      destruct (IH (bs1 ++ [b]) (ACommit (Z.of_nat c) b :: before) ps1) as [before2 [ps2 [E [Hs2 [Hd2 [Hp2' [Hb2 Hc2]]]]]]].
+      + rewrite <- app_assoc. exact Etot.
+      + rewrite PCL.block_app, PEP.run_app.
+        change (PE.run (PE.run s0 (PP.block c bs1)) (PP.block c [b]))
+          with (PE.step (PE.run s0 (PP.block c bs1)) (PS.commit_on c b)).
+        apply lsim_commit with (x := x); assumption.
+      + exact Hdone.
+      + cbn [ps_pend ps1]. destruct bs1; reflexivity.
+      + discriminate.
+      + intros _. destruct before as [|x0 r]; [contradiction|]. exists b, x0, r. reflexivity.
+      + exists before2, ps2. split; [exact E|]. split; [exact Hs2|]. split; [exact Hd2|]. split; [exact Hp2'|].
+        split; [exact Hb2|]. intros z Hz. apply Hc2 in Hz. destruct Hz as [Hz|Hz]; [left; exact Hz|].
+        change (commit_ids (ACommit (Z.of_nat c) b :: before)) with (Z.of_nat c :: commit_ids before) in Hz.
+        destruct Hz as [Hz|Hz]; [left; symmetry; exact Hz | right; exact Hz].
+  Qed.
+  Definition result_ok (done : list nat) (p : list PS.action) (r : option pstate) : Prop :=
+    exists ps' done', r = Some ps' /\ ps_pend ps' = None /\ ps_done ps' = map Z.of_nat done' /\ NoDup done' /\
+      (forall c, In c done' -> (c < n)%nat) /\ (forall c, In c done \/ In c (PS.analysed p) -> In c done').
+
+  Lemma result_ok_mono done1 p1 done2 p2 r :
+    (forall c, In c done1 \/ In c (PS.analysed p1) -> In c done2 \/ In c (PS.analysed p2)) ->
+    result_ok done2 p2 r -> result_ok done1 p1 r.
+  Proof.
+    intros H [ps' [done' [E [H1 [H2 [H3 [H4 H5]]]]]]]. exists ps', done'.
+    split; [exact E|]. split; [exact H1|]. split; [exact H2|]. split; [exact H3|]. split; [exact H4|].
+    intros c Hc. apply H5, H. exact Hc.
+  Qed.
+
+  Lemma before_ok_other a before done : PS.kind a <> PS.KCommit ->
+    before_ok before done -> before_ok (tr_action a :: before) done.
+  Proof.
+    intros K Hb z Hz. apply Hb.
+    change (commit_ids (tr_action a :: before))
+      with ((match tr_action a with ACommit c _ => [c] | _ => [] end) ++ commit_ids before) in Hz.
+    apply in_app_or in Hz. destruct Hz as [Hz|Hz]; [|exact Hz]. exfalso.
+    destruct a as [k co its]. cbn [PS.kind] in K.
+    destruct k; try (apply K; reflexivity); destruct its as [|b its']; destruct Hz.
+  Qed.
+
+  Lemma Acc_sim : forall s done p, PCS.Acc g s done p ->
+    forall before ps,
+      lsim n s (ps_live ps) (ps_seen ps) -> ps_done ps = map Z.of_nat done -> ps_pend ps = None ->
+      (before = [] -> forall b, PE.get s b = PE.Absent) -> before_ok before done ->
+      NoDup done -> (forall c, In c done -> (c < n)%nat) ->
+      result_ok done p (prun h A n before (tr_plan p) ps).
+  Proof.
+    intros s done p HAcc.
+    induction HAcc as [s done Hf | s done c b rest Hd Hr Hl HA IH
+                      | s done c bs m rest L Hd Hnd Hr Hl K Hp Hlive Hcov HA IH
+                      | s done a rest K1 K2 Hs HA IH];
+      intros before ps Hsim Hdone Hpend Hb0 Hbok Hdnd Hdlt.
+    - (* end of the plan *)
+      exists ps, done. split; [reflexivity|]. split; [exact Hpend|]. split; [exact Hdone|].
+      split; [exact Hdnd|]. split; [exact Hdlt|]. intros c [Hc|[]]. exact Hc.
+    - (* one replay of c: normal mode *)
+      pose proof Hr as [Hc [x [Hx _]]]. rewrite (graph_length h) in Hc.
+      destruct (lsim_live n _ _ _ _ _ Hsim Hx) as [pb [Hpb Hpbok]].
+      pose proof (not_in_set _ c b x pb Hc Hr Hx Hpbok) as Hnot.
+      assert (Hmd : memz (Z.of_nat c) (ps_done ps) = false) by (rewrite Hdone; apply memz_done; exact Hd).
+      assert (Him : is_merge_at before (tr_plan rest) (Z.of_nat c) = false).
+      { apply is_merge_at_false.
+        - intros z Hz. destruct (Hbok z Hz) as [c' [-> Hc']]. intros E. apply Nat2Z.inj in E. subst c'. contradiction.
+        - intros z Hz. destruct (Acc_nearest _ _ _ _ HA z Hz) as [c' [-> Hc']]. intros E. apply Nat2Z.inj in E.
+          subst c'. apply Hc'. left. reflexivity. }
+      pose proof (single_vec_eqb _ c b x pb Hc Hr Hl Hx Hpbok) as Heq.
+      change (tr_plan (PS.commit_on c b :: rest)) with (ACommit (Z.of_nat c) b :: tr_plan rest).
+      cbn [prun].
+      rewrite (pstep_commit_normal h A n before (tr_plan rest) (Z.of_nat c) b ps pb Hpb (in_range_of_nat c Hc)
+                 Hnot Hmd Him Hpend Heq).
+      eapply result_ok_mono; [|apply IH].
+      + intros c0 [H0|H0]; [left; right; exact H0|].
+        change (PS.analysed (PS.commit_on c b :: rest)) with (c :: PS.analysed rest) in H0.
+        destruct H0 as [<-|H0]; [left; left; reflexivity | right; exact H0].
+      + cbn [ps_live ps_seen]. apply lsim_commit with (x := x); assumption.
+      + cbn [ps_done]. rewrite Hdone. reflexivity.
+      + reflexivity.
+      + discriminate.
+      + intros z Hz.
+        change (commit_ids (ACommit (Z.of_nat c) b :: before)) with (Z.of_nat c :: commit_ids before) in Hz.
+        destruct Hz as [<-|Hz]; [exists c; split; [reflexivity | left; reflexivity]|].
+        destruct (Hbok z Hz) as [c' [-> Hc']]. exists c'. split; [reflexivity | right; exact Hc'].
+      + constructor; assumption.
+      + intros c0 [<-|H0]; [exact Hc | apply Hdlt; exact H0].
+    - (* several replays of c, then the merge *)
+      destruct bs as [|b0 bs0] eqn:Ebs; [cbn in L; lia|]. rewrite <- Ebs in *.
+      assert (Hr0 : PP.replay_ok g s c b0).
+      { apply (Hr [] b0 bs0). rewrite Ebs. reflexivity. }
+      pose proof Hr0 as [Hc [x0 [Hx0 _]]]. rewrite (graph_length h) in Hc.
+      assert (Hbne : before <> []).
+      { intros E. rewrite (Hb0 E b0) in Hx0. discriminate. }
+      assert (HL' : (2 <= length (map (PE.last_on s) bs))%nat) by (rewrite map_length; exact L).
+      destruct (lasts_multi g c _ Hl HL') as [Hpne Hp2].
+      unfold tr_plan. rewrite map_app. fold (tr_plan (PP.block c bs)). cbn [map]. fold (tr_plan rest).
+      destruct (block_sim c bs (tr_action m :: tr_plan rest) s done Hc Hnd L Hpne Hp2 Hd Hr bs [] before ps)
+        as [before2 [ps2 [E [Hs2 [Hd2 [Hp2' [Hb2 Hc2]]]]]]].
+      + reflexivity.
+      + exact Hsim.
+      + exact Hdone.
+      + exact Hpend.
+      + exact Hbne.
+      + intros Hf. exfalso. apply Hf. reflexivity.
+      + rewrite E. rewrite Ebs in Hp2'. rewrite <- Ebs in Hp2'.
+        assert (Etr : tr_action m = AMerge (PS.items m)).
+        { destruct m as [k co its]. cbn [PS.kind] in K. subst k. reflexivity. }
+        rewrite Etr. cbn [prun].
+        assert (Hlive' : forall b, In b (PS.items m) -> exists x, PE.get (PE.run s (PP.block c bs)) b = PE.Live x).
+        { intros b Hb. destruct (Hlive b Hb) as [x [Hx _]]. exists x. exact Hx. }
+        destruct (union_of_spec n _ _ _ (PS.items m) Hs2 Hlive') as [HUL HUbits].
+        assert (Hmnd : NoDup (PS.items m)).
+        { eapply Permutation_NoDup; [apply Permutation_sym; exact Hp | exact Hnd]. }
+        assert (Heq : vec_eqb (union_of n (ps_live ps2) (PS.items m)) (znth [] A (Z.of_nat c)) = true).
+        { apply vec_eqb_true.
+          - rewrite HUL, row_length_of_nat by exact Hc. reflexivity.
+          - intros i. destruct (Z_lt_dec i 0) as [Hneg|Hpos]; [rewrite !vget_neg by exact Hneg; reflexivity|].
+            destruct (Z_lt_dec i (Z.of_nat n)) as [Hin|Hout].
+            + replace i with (Z.of_nat (Z.to_nat i)) by lia.
+              assert (Ha : (Z.to_nat i < n)%nat) by lia. set (a := Z.to_nat i) in *.
+              rewrite row_vget. apply eq_true_iff_eq.
+              rewrite (HUbits a Ha), (ancb_Anc h Hok c a Hc). apply Hcov.
+            + rewrite !vget_out; [reflexivity | |].
+              * rewrite row_length_of_nat by exact Hc. lia.
+              * rewrite HUL. lia. }
+        rewrite (pstep_merge h A n before2 (tr_plan rest) (PS.items m) ps2 (Z.of_nat c) bs).
+        * eapply result_ok_mono; [|apply IH].
+          -- intros c0 [H0|H0]; [left; right; exact H0|].
+             change (m :: rest) with ([m] ++ rest) in H0.
+             rewrite !PEP.analysed_app, !in_app_iff, (PCL.analysed_noncommit m) in H0 by (rewrite K; discriminate).
+             destruct H0 as [H0|[[]|H0]]; [|right; exact H0].
+             apply PCL.analysed_block in H0. left. left. symmetry. exact H0.
+          -- cbn [ps_live ps_seen]. apply (lsim_merge n _ _ _ m c Hs2 K Hlive).
+          -- cbn [ps_done]. rewrite Hd2. reflexivity.
+          -- reflexivity.
+          -- discriminate.
+          -- intros z Hz.
+             change (commit_ids (AMerge (PS.items m) :: before2)) with (commit_ids before2) in Hz.
+             apply Hc2 in Hz. destruct Hz as [->|Hz]; [exists c; split; [reflexivity | left; reflexivity]|].
+             destruct (Hbok z Hz) as [c' [-> Hc']]. exists c'. split; [reflexivity | right; exact Hc'].
+          -- constructor; assumption.
+          -- intros c0 [<-|H0]; [exact Hc | apply Hdlt; exact H0].
+        * rewrite Hp2'. rewrite Ebs. reflexivity.
+        * apply nodup_zb_true. exact Hmnd.
+        * unfold subset_z. apply forallb_forall. intros y Hy. apply memz_In.
+          eapply Permutation_in; [exact Hp | exact Hy].
+        * unfold subset_z. apply forallb_forall. intros y Hy. apply memz_In.
+          eapply Permutation_in; [apply Permutation_sym; exact Hp | exact Hy].
+        * apply Z.leb_le. rewrite (Permutation_length Hp). lia.
+        * exact Heq.
+    - (* emerge / fork / delete / hibernate / boot *)
+      destruct Hs as [W [Hind [Hu [Hcr Hbo]]]].
+      change (tr_plan (a :: rest)) with (tr_action a :: tr_plan rest). cbn [prun].
+      pose proof (before_ok_other a before done K1 Hbok) as Hbok'.
+      destruct a as [k co its]. unfold PS.wf_action in W.
+      unfold PL.uses in Hu. unfold PL.creates in Hcr. unfold PL.boots in Hbo.
+      cbn [PS.kind PS.items] in K1, K2, W, Hind, Hu, Hcr, Hbo.
+      destruct k; try (exfalso; apply K1; reflexivity); try (exfalso; apply K2; reflexivity).
+      + (* fork *)
+        destruct W as [b [t [ts ->]]].
+        change (tr_action (PS.mkA PS.KFork co (b :: t :: ts))) with (AFork b (t :: ts)).
+        destruct (Hu b (or_introl eq_refl)) as [x Hx].
+        destruct (lsim_live n _ _ _ _ _ Hsim Hx) as [pb [Hpb Hpbok]].
+        rewrite (pstep_fork h A n before (tr_plan rest) b (t :: ts) ps pb Hpend Hpb).
+        * eapply result_ok_mono; [|apply IH].
+          -- intros c0 [H0|H0]; [left; exact H0 | right; exact H0].
+          -- cbn [ps_live ps_seen].
+             change (PE.step s (PS.mkA PS.KFork co (b :: t :: ts)))
+               with (fold_left (fun s' t0 => PE.set s' t0 (PE.get s b)) (t :: ts) s).
+             apply lsim_fork with (x := x); assumption.
+          -- exact Hdone.
+          -- reflexivity.
+          -- discriminate.
+          -- exact Hbok'.
+          -- exact Hdnd.
+          -- exact Hdlt.
+        * apply forallb_forall. intros b' Hb'. apply negb_true_iff.
+          apply (lsim_absent n _ _ _ _ Hsim). apply Hcr. exact Hb'.
+        * apply nodup_zb_true. inversion Hind; assumption.
+      + (* emerge *)
+        destruct W as [b ->].
+        change (tr_action (PS.mkA PS.KEmerge co [b])) with (AEmerge b).
+        pose proof (Hcr b (or_introl eq_refl)) as Habs.
+        rewrite (pstep_emerge h A n before (tr_plan rest) b ps Hpend (lsim_absent n _ _ _ _ Hsim Habs)).
+        eapply result_ok_mono; [|apply IH].
+        * intros c0 [H0|H0]; [left; exact H0 | right; exact H0].
+        * cbn [ps_live ps_seen].
+          change (PE.step s (PS.mkA PS.KEmerge co [b])) with (PE.set s b (PE.Live (PE.mkB [] None))).
+          apply lsim_emerge. exact Hsim.
+        * exact Hdone.
+        * reflexivity.
+        * discriminate.
+        * exact Hbok'.
+        * exact Hdnd.
+        * exact Hdlt.
+      + (* delete *)
+        destruct W as [b ->].
+        change (tr_action (PS.mkA PS.KDelete co [b])) with (ADelete b).
+        destruct (Hu b (or_introl eq_refl)) as [x Hx].
+        destruct (lsim_live n _ _ _ _ _ Hsim Hx) as [pb [Hpb Hpbok]].
+        rewrite (pstep_delete h A n before (tr_plan rest) b ps pb Hpend Hpb).
+        eapply result_ok_mono; [|apply IH].
+        * intros c0 [H0|H0]; [left; exact H0 | right; exact H0].
+        * cbn [ps_live ps_seen].
+          change (PE.step s (PS.mkA PS.KDelete co [b])) with (PE.set s b PE.Disposed).
+          apply lsim_delete. exact Hsim.
+        * exact Hdone.
+        * reflexivity.
+        * discriminate.
+        * exact Hbok'.
+        * exact Hdnd.
+        * exact Hdlt.
+      + (* hibernate: ignored by C01 *)
+        change (tr_action (PS.mkA PS.KHibernate co its)) with (AHibernate its). cbn [pstep].
+        eapply result_ok_mono; [|apply IH].
+        * intros c0 [H0|H0]; [left; exact H0 | right; exact H0].
+        * change (PE.step s (PS.mkA PS.KHibernate co its)) with (fold_left PE.hibernate1 its s).
+          apply lsim_hibernate. exact Hsim.
+        * exact Hdone.
+        * exact Hpend.
+        * discriminate.
+        * exact Hbok'.
+        * exact Hdnd.
+        * exact Hdlt.
+      + (* boot: ignored by C01 *)
+        change (tr_action (PS.mkA PS.KBoot co its)) with (ABoot its). cbn [pstep].
+        eapply result_ok_mono; [|apply IH].
+        * intros c0 [H0|H0]; [left; exact H0 | right; exact H0].
+        * change (PE.step s (PS.mkA PS.KBoot co its)) with (fold_left PE.boot1 its s).
+          apply lsim_boot. exact Hsim.
+        * exact Hdone.
+        * exact Hpend.
+        * discriminate.
+        * exact Hbok'.
+        * exact Hdnd.
+        * exact Hdlt.
+  Qed.
+End Main.
+
+(* ---------- the theorems ---------- *)
+
+Lemma covered_length n done : NoDup done -> (forall c, In c done -> (c < n)%nat) ->
+  (forall c, (c < n)%nat -> In c done) -> length done = n.
+Proof.
+  intros Hnd Hlt Hall. apply Nat.le_antisymm.
+  - rewrite <- (seq_length n 0). apply NoDup_incl_length; [exact Hnd|].
+    intros c Hc. apply in_seq. specialize (Hlt c Hc). lia.
+  - rewrite <- (seq_length n 0) at 1. apply NoDup_incl_length; [apply seq_NoDup|].
+    intros c Hc. apply in_seq in Hc. apply Hall. lia.
+Qed.
+
+(* A plan accepted by the validator of C02 over the graph of h, and analysing every commit of h, is accepted
+   by the validator of C01 (after translation).  The coverage hypothesis is needed: C02 only asks for the largest
+   connected component of the graph, C01 for every commit (see [coverage_needed] below). *)
+Theorem plan_ok_implies_plan_okb : forall h p,
+  commits_okb h = true ->
+  PC.plan_ok (graph_of h) p = true ->
+  (forall c, (c < length (h_parents h))%nat -> In c (PS.analysed p)) ->
+  plan_okb h (tr_plan p) = true.
+Proof.
+  intros h p Hok Hp Hcov. destruct (PCS.plan_ok_Acc _ _ Hp) as [_ HA].
+  destruct (Acc_sim h Hok _ _ _ HA [] pstate0) as [ps' [done' [E [Hpend [Hdone [Hnd [Hlt Hall]]]]]]].
+  - split; [|split].
+    + intros b. exact I.
+    + constructor.
+    + intros b [].
+  - reflexivity.
+  - reflexivity.
+  - intros _ b. reflexivity.
+  - intros z [].
+  - constructor.
+  - intros c [].
+  - unfold plan_okb. rewrite E, Hpend, Hdone. rewrite map_length.
+    rewrite (covered_length (length (h_parents h)) done' Hnd Hlt).
+    + rewrite Z.eqb_refl. cbn [andb]. apply nodup_zb_true. apply nodup_map_of_nat. exact Hnd.
+    + intros c Hc. apply Hall. right. apply Hcov. exact Hc.
+Qed.
+
+(* the coverage hypothesis follows when the commit graph is connected ... *)
+Corollary plan_ok_implies_plan_okb_connected : forall h p,
+  commits_okb h = true ->
+  PC.plan_ok (graph_of h) p = true ->
+  (forall a c, (a < length (h_parents h))%nat -> (c < length (h_parents h))%nat -> PG.conn (graph_of h) a c) ->
+  plan_okb h (tr_plan p) = true.
+Proof.
+  intros h p Hok Hp Hconn. apply plan_ok_implies_plan_okb; [exact Hok | exact Hp |].
+  intros c Hc. destruct (PCS.checker_sound _ _ Hp) as [_ R _ _ _].
+  destruct R as [[c0 Hc0] [Hlt [Hcomp _]]].
+  apply (Hcomp c0 c Hc0). apply Hconn; [|exact Hc].
+  rewrite <- (graph_length h). apply Hlt. exact Hc0.
+Qed.
+
+Lemma Anc_conn g a c : PG.Anc g a c -> PG.conn g a c.
+Proof.
+  induction 1 as [c|a q c Hq Ha IH]; [apply PG.conn_refl|].
+  eapply PG.conn_step; [exact IH|]. left. exact Hq.
+Qed.
+
+(* ... in particular when the history has a single head in the sense of C01 *)
+Corollary plan_ok_implies_plan_okb_single_head : forall h p,
+  commits_okb h = true ->
+  Lifetimes.single_head h = true ->
+  PC.plan_ok (graph_of h) p = true ->
+  plan_okb h (tr_plan p) = true.
+Proof.
+  intros h p Hok Hsh Hp. apply plan_ok_implies_plan_okb_connected; [exact Hok | exact Hp |].
+  assert (Hn : 1 <= ncommits h).
+  { unfold commits_okb in Hok. repeat (apply andb_prop in Hok; destruct Hok as [Hok ?]). lia. }
+  assert (Hhead : forall a, (a < length (h_parents h))%nat ->
+                            PG.conn (graph_of h) a (length (h_parents h) - 1)).
+  { intros a Ha. apply Anc_conn. apply (ancb_Anc h Hok); [unfold ncommits in Hn; lia|].
+    unfold Lifetimes.single_head in Hsh. rewrite forallb_forall in Hsh.
+    replace (Z.of_nat (length (h_parents h) - 1)) with (ncommits h - 1) by (unfold ncommits in *; lia).
+    apply Hsh. apply zrange_in. unfold ncommits. lia. }
+  intros a c Ha Hc. eapply PGP.conn_trans; [apply Hhead; exact Ha | apply PGP.conn_sym, Hhead; exact Hc].
+Qed.
+
+(* The coverage hypothesis cannot be dropped: two unrelated roots, the planner (leaveRootComponent) keeps one
+   component; C02 accepts the plan, C01 rejects it because commit 1 is never accounted. *)
+Definition two_roots : hist := mkHist [[]; []] [0; 0] [0; 0] [].
+Definition two_roots_plan : list PS.action := [PS.emerge 1 (Some 0%nat); PS.commit_on 0 1].
+Example coverage_needed :
+  commits_okb two_roots = true /\
+  PC.plan_ok (graph_of two_roots) two_roots_plan = true /\
+  plan_okb two_roots (tr_plan two_roots_plan) = false.
+Proof. vm_compute. auto. Qed.
+
+(* non-vacuity of the theorem: its three hypotheses hold of the diamond, and so does the conclusion *)
+Example plan_ok_implies_plan_okb_nonvacuous :
+  commits_okb diamond_hist = true /\
+  PC.plan_ok (graph_of diamond_hist) diamond_plan02 = true /\
+  (forall c, (c < length (h_parents diamond_hist))%nat -> In c (PS.analysed diamond_plan02)) /\
+  plan_okb diamond_hist (tr_plan diamond_plan02) = true.
+Proof.
+  split; [exact diamond_commits_ok|]. split; [exact diamond_plan_ok|]. split; [|exact diamond_plan_okb].
+  intros c Hc. apply PGP.memn_In.
+  pose proof diamond_covered as H. rewrite forallb_forall in H. apply H. apply in_seq. lia.
+Qed.
+
+Example single_head_corollary_nonvacuous :
+  Lifetimes.single_head diamond_hist = true /\
+  plan_okb diamond_hist (tr_plan diamond_plan02) = true.
+Proof.
+  split; [vm_compute; reflexivity|].
+  apply plan_ok_implies_plan_okb_single_head; [exact diamond_commits_ok | vm_compute; reflexivity | exact diamond_plan_ok].
+Qed.
+
+Print Assumptions plan_ok_implies_plan_okb.
+Print Assumptions plan_ok_implies_plan_okb_connected.
+Print Assumptions plan_ok_implies_plan_okb_single_head.
+Print Assumptions ancb_Anc.
